@@ -178,4 +178,35 @@ def stepC (fam : List GSchema) (ins : List GVal) (st : CState) : CStep → CStat
 def runC (fam : List GSchema) (ins : List GVal) (st : CState) (steps : List CStep) : CState :=
   steps.foldl (stepC fam ins) st
 
+/-! ### Parse through a caller's pointer
+
+    A pointer is a reference to a one-slot cell (key 0) — the caller's variable — holding the pointee value.
+
+    internal/engine/parser.go validatePointer, after /repo e584c0e (no overwrite check attached): the pointee goes through
+    the schema's validator and NOTHING is stored. When the validated value IS the value the pointer refers to
+    (`sameValue`: scalars equal; maps, slices, pointers the same cell; structs / arrays member by member) the caller's own
+    pointer is the answer; when the validator built a new value (an object's result map) the answer is a pointer of its
+    own (`return &v`). `legacy = true` is the code before e584c0e: `*ptr = v; return ptr`. -/
+
+/-- internal/engine/parser.go sameValue -/
+def sameV : Nat → GVal → GVal → Bool
+  | 0, _, _ => false
+  | _ + 1, .scalar n, .scalar m => n == m
+  | _ + 1, .nil, .nil => true
+  | _ + 1, .ref l, .ref l' => l == l'
+  | f + 1, .agg fs, .agg gs =>
+    fs.length == gs.length && (fs.zip gs).all (fun pq => pq.1.1 == pq.2.1 && sameV f pq.1.2 pq.2.2)
+  | _ + 1, _, _ => false
+
+def parsePtrS (legacy : Bool) (s : GSchema) (σ : GStore) (p : Loc) : GStore × Option GVal :=
+  match readG σ.heap p with
+  | [(0, v)] =>
+    match (parseS s σ v).2 with
+    | none => ((parseS s σ v).1, none)
+    | some w =>
+      if legacy then (assign (parseS s σ v).1 p [(0, w)], some (.ref p))
+      else if sameV gdepth w v then ((parseS s σ v).1, some (.ref p))
+      else ((galloc (parseS s σ v).1 [(0, w)]).1, some (.ref (galloc (parseS s σ v).1 [(0, w)]).2))
+  | _ => (σ, none)
+
 end Gozod.Graph
